@@ -15,10 +15,15 @@
    comma-free (F07), grouping rules of exactly the definition's arity (F03), an update that takes
    place has new rules that are not listed, pairwise distinct and not among its old rules (F08),
    filtered removals stay within the rule length (Go panics beyond).  UpdateFilteredPoliciesSelf
-   takes its old rules from the adapter: it is covered by (3) only and refuted for (4) (F09). *)
-From Coq Require Import List String Bool Arith Permutation.
+   takes its old rules from the adapter: it is covered by (3) only and refuted for (4) (F09).
+   (7) the *Self calls notify nobody: no watcher callback, no flag change, and never the replica's
+   own dispatcher (they are what a dispatcher calls on the receiving replicas) — no guard at all.
+   (8) a policy type with an explicit priority column stays sorted by priority under every guarded
+   log whose rules have numeric priorities and whose updates keep the priority. *)
+From Coq Require Import List String Bool Arith ZArith Permutation.
 Import ListNotations.
 From Casbin Require Import Base Store StoreProofs Roles RolesProofs Machine MachineProofs Dist DistProofs.
+From Casbin Require Import PriorityProofs.
 
 (* ---------- (1) affected_exact ----------
    In every state satisfying the invariant (= every state reached by a guarded log, see (5)),
@@ -181,7 +186,8 @@ Print Assumptions C19_replicas_agree.
 Theorem C19_same_memory_same_decisions : forall s1 s2, mem_equiv s1 s2 ->
   (forall sub obj act, decide_rbac s2 sub obj act = decide_rbac s1 sub obj act) /\
   (forall sub dom obj act, decide_domain s2 sub dom obj act = decide_domain s1 sub dom obj act) /\
-  (forall pt u r d, has_link (get_links s2 pt) u r d = has_link (get_links s1 pt) u r d).
+  (forall pt u r d, has_link (get_links s2 pt) u r d = has_link (get_links s1 pt) u r d) /\
+  (forall sub obj act, decide_priority s2 sub obj act = decide_priority s1 sub obj act).
 Proof. exact decisions_from_rules_and_links. Qed.
 Print Assumptions C19_same_memory_same_decisions.
 
@@ -222,6 +228,63 @@ Theorem C19_clear_self : forall cfg s p, call_ok s p ->
              forall u r d, has_link (get_links (fst (dstep cfg s DClear p)) pt) u r d = String.eqb u r.
 Proof. exact clear_self. Qed.
 Print Assumptions C19_clear_self.
+
+(* ---------- (7) the *Self calls notify nobody ----------  (no guard; every operation, any persist
+   decision, failing adapter or not) *)
+(* no watcher callback is made and no flag of the enforcer changes *)
+Theorem C19_self_notifies_nobody : forall cfg s op p,
+  let s' := fst (dstep cfg s op p) in
+  wlog s' = wlog s /\ watcher s' = watcher s /\ autonotify s' = autonotify s /\ autosave s' = autosave s.
+Proof. exact self_notifies_nobody. Qed.
+Print Assumptions C19_self_notifies_nobody.
+
+(* a replica with its own dispatcher (Dist.replica, rep_disp = the calls made on it): whatever the
+   log, the dispatcher sees no call, and results and enforcer state are those of `drun` *)
+Theorem C19_self_dispatcher_free : forall cfg log r,
+  rep_disp (fst (rrun cfg r log)) = rep_disp r /\
+  rep_m (fst (rrun cfg r log)) = fst (drun cfg (rep_m r) log) /\
+  snd (rrun cfg r log) = snd (drun cfg (rep_m r) log).
+Proof. exact self_dispatcher_free. Qed.
+Print Assumptions C19_self_dispatcher_free.
+
+(* a replica wired to a dispatcher and one that is not, any persist predicates: same results, same
+   memory after every log, both dispatchers untouched *)
+Theorem C19_wired_replica_agrees : forall cfg log1 log2 r1 r2,
+  map fst log1 = map fst log2 -> no_filtered (map fst log1) ->
+  same_mem (rep_m r1) (rep_m r2) -> fail_in (ad (rep_m r1)) = None -> fail_in (ad (rep_m r2)) = None ->
+  same_mem (rep_m (fst (rrun cfg r1 log1))) (rep_m (fst (rrun cfg r2 log2))) /\
+  snd (rrun cfg r1 log1) = snd (rrun cfg r2 log2) /\
+  rep_disp (fst (rrun cfg r1 log1)) = rep_disp r1 /\ rep_disp (fst (rrun cfg r2 log2)) = rep_disp r2.
+Proof. exact wired_replica_agrees. Qed.
+Print Assumptions C19_wired_replica_agrees.
+
+(* ---------- (8) an explicit priority column: the listing stays sorted ----------
+   SortedNum c l: every rule of l has a numeric priority in column c and the priorities do not
+   decrease.  dprio_ok: the rules added to the type have numeric priorities, an update of the type
+   replaces a rule by one of the same priority (model.UpdatePolicy writes in place).  One call: *)
+Theorem C19_priority_order_step : forall cfg s op p pt d c,
+  MInv cfg s -> dop_ok cfg s op -> call_ok s p -> def_of cfg pt = Some d -> a_prio d = Some c ->
+  dprio_ok c pt op -> SortedNum c (pol (get_store s pt)) ->
+  SortedNum c (pol (get_store (fst (dstep cfg s op p)) pt)).
+Proof. exact self_keeps_priority_order. Qed.
+Print Assumptions C19_priority_order_step.
+
+(* every guarded log *)
+Theorem C19_priority_order_all_logs : forall cfg pt d c log s,
+  def_of cfg pt = Some d -> a_prio d = Some c ->
+  MInv cfg s -> fail_in (ad s) = None -> dguards cfg s log -> dprio_oks c pt log ->
+  SortedNum c (pol (get_store s pt)) -> SortedNum c (pol (get_store (fst (drun cfg s log)) pt)).
+Proof. exact drun_keeps_priority_order. Qed.
+Print Assumptions C19_priority_order_all_logs.
+
+(* where AddPoliciesSelf puts one new rule of priority v: behind every listed rule of priority <= v
+   (ties included), in front of the greater ones, the listed rules keeping their order *)
+Theorem C19_priority_insert_position : forall c l r v, pnumeric c l -> psorted c l -> prio_of c r = Some v ->
+  psorted c (spec_insert (Some c) l r) /\
+  exists pre suf, spec_insert (Some c) l r = pre ++ r :: suf /\ l = pre ++ suf /\
+    (forall x, In x pre -> (pv c x <= v)%Z) /\ (forall x, In x suf -> (v < pv c x)%Z).
+Proof. exact insert_sorted. Qed.
+Print Assumptions C19_priority_insert_position.
 
 (* ---------- the guards are necessary (witnesses on the faithful model, by computation) ---------- *)
 Local Open Scope string_scope.
@@ -284,3 +347,25 @@ Example C19_nonvacuous_clear :
   let s1 := fst (drun cfg_rbac ex_s0 [(DAdd "g" [["alice"; "admin"]], true); (DClear, false)]) in
   listed cfg_rbac s1 = [("g", []); ("p", [])] /\ has_link (get_links s1 "g") "alice" "admin" "" = false.
 Proof. exact example_clear. Qed.
+(* a priority model (p = priority, sub, obj, act, eft): rules inserted in front of listed ones and
+   behind a tie, the rule that sorts last removed and removed again, a rule replaced by one of the
+   same priority; the log is inside the guards of (5) and (8); a replica wired to a dispatcher
+   returns the same results and its dispatcher saw no call *)
+Example C19_nonvacuous_priority_init : MInv cfg_prio pr_s0.
+Proof. exact prio_example_init. Qed.
+Example C19_nonvacuous_priority_guards : dguards cfg_prio pr_s0 (pr_log true) /\ dprio_oks 0 "p" (pr_log true).
+Proof. exact prio_example_guards. Qed.
+Example C19_nonvacuous_priority_results :
+  snd (drun cfg_prio pr_s0 (pr_log true)) =
+    [DRules [["10"; "alice"; "data1"; "read"; "allow"]; ["20"; "root"; "data2"; "write"; "deny"]] false;
+     DRules [["1"; "alice"; "data2"; "write"; "deny"]; ["10"; "bob"; "data2"; "write"; "allow"]] false;
+     DRules [["20"; "root"; "data2"; "write"; "deny"]] false; DRules [] false;
+     DRules [["bob"; "alice"]] false; DFlag true false] /\
+  pol (get_store (fst (drun cfg_prio pr_s0 (pr_log false))) "p") =
+    [["1"; "alice"; "data1"; "read"; "deny"]; ["10"; "alice"; "data1"; "read"; "allow"];
+     ["10"; "bob"; "data2"; "write"; "allow"]] /\
+  decide_priority (fst (drun cfg_prio pr_s0 (pr_log false))) "bob" "data1" "read" = Some false /\
+  decide_priority (fst (drun cfg_prio pr_s0 (pr_log false))) "bob" "data2" "write" = Some true /\
+  snd (rrun cfg_prio {| rep_m := pr_s0; rep_disp := Some [] |} (pr_log false)) = snd (drun cfg_prio pr_s0 (pr_log true)) /\
+  rep_disp (fst (rrun cfg_prio {| rep_m := pr_s0; rep_disp := Some [] |} (pr_log false))) = Some [].
+Proof. exact prio_example_results. Qed.
